@@ -5,6 +5,9 @@
  *  -DSIDE_T  the text form echsd writes, "PT<n>S", read by idiff_strp (src/dt-strpf.c)
  *  -DSIDE_M  make_task() (src/evical.c) classifies a request with a DURATION as a
  *            timeout and keeps the value
+ *  -DSIDE_E  make_task() turns DTSTART..DTEND given in a time zone into the duration: the
+ *            real elapsed (UTC) time, also across a DST switch (zone stand-in: Europe/Berlin
+ *            around 2015-03-29; the native replay uses the real zoneinfo file)
  *  -DSIDE_X  echsx() (src/echsx.c) up to set_timeout(): argument handed to alarm()
  *            for a TIMEOUT request and for a DUE request
  * The limit L is symbolic (1 s .. 30 days, ms resolution where the type has it). */
@@ -14,7 +17,7 @@
 # include "echsd_env.h"
 #elif defined SIDE_T
 # include "dt-strpf.c"
-#elif defined SIDE_M
+#elif defined SIDE_M || defined SIDE_E
 # include "evical.c"
 #elif defined SIDE_X
 # include <signal.h>
@@ -30,7 +33,7 @@ static long long cap_now;
 # error pick a side
 #endif
 
-#define INPUTS X(ms) XA(dg, 7) X(nd) X(due_sod) X(now)
+#define INPUTS X(ms) XA(dg, 7) X(nd) X(due_sod) X(now) X(fsec) X(tsec)
 #include "sym.h"
 
 #define LMAX	(30LL * 86400000LL)
@@ -50,6 +53,28 @@ int sigprocmask(int h, const sigset_t *s, sigset_t *o) { (void)h; (void)s; (void
 int open(const char *fn, int fl, ...) { (void)fn; (void)fl; return -1; }
 static struct passwd PW = {.pw_name = "u", .pw_uid = 1000, .pw_gid = 1000, .pw_dir = "/", .pw_shell = "/bin/sh"};
 struct passwd *getpwuid(uid_t u) { (void)u; return &PW; }
+#endif
+
+#if defined SIDE_E
+/* Europe/Berlin, local seconds counted from 2015-03-28 00:00 wall clock: UTC+1 before
+ * 02:00 on the 29th, UTC+2 from 03:00 on (02:00..03:00 does not exist) */
+static long long berlin_off(long long lsec) { return lsec < 86400 + 7200 ? 3600 : 7200; }
+# if defined VERIF_CBMC
+echs_instant_t echs_instant_utc(echs_instant_t i, echs_tzob_t z)
+{
+	(void)z;
+	i = echs_instant_detach_tzob(i);
+	const long long lsec = ((long long)i.d - 28) * 86400 + i.H * 3600LL + i.M * 60LL + i.S;
+	return echs_instant_add(i, (echs_idiff_t){-berlin_off(lsec) * 1000});
+}
+# endif
+static echs_instant_t berlin_wall(long long lsec, echs_tzob_t z)
+{
+	echs_instant_t i = {.u = 0U};
+	i.y = 2015, i.m = 3, i.d = 28U + (unsigned)(lsec / 86400);
+	i.H = (unsigned)(lsec % 86400 / 3600), i.M = (unsigned)(lsec / 60 % 60), i.S = (unsigned)(lsec % 60), i.ms = ECHS_ALL_SEC;
+	return echs_instant_attach_tzob(i, z);
+}
 #endif
 
 void harness(void)
@@ -97,6 +122,24 @@ void harness(void)
 		CHECK(t->strm == NULL && t->vtod_typ == VTOD_TYP_TIMEOUT, "a request with a DURATION and no DTSTART is a timeout request");
 		CHECK(t->timeout.d == in.ms, "the timeout keeps the value of the DURATION");
 	}
+	WITNESS_POINT();
+#elif defined SIDE_E
+	static struct ical_vevent_s ve;
+	/* wall-clock DTSTART and DTEND, both TZID=Europe/Berlin, anywhere in 2015-03-28..30, not inside the gap */
+	ASSUME(in.fsec >= 0 && in.fsec < 3 * 86400 && in.tsec >= 0 && in.tsec < 3 * 86400);
+	ASSUME(!(in.fsec >= 86400 + 7200 && in.fsec < 86400 + 10800) && !(in.tsec >= 86400 + 7200 && in.tsec < 86400 + 10800));
+	const long long want = (in.tsec - berlin_off(in.tsec)) - (in.fsec - berlin_off(in.fsec));
+	ASSUME(want > 0);
+# if defined VERIF_CBMC
+	const echs_tzob_t Z = 0x40U;	/* any value inside ECHS_DMASK */
+# else
+	const echs_tzob_t Z = echs_tzob("Europe/Berlin", 13U);
+# endif
+	ve.from = berlin_wall(in.fsec, Z), ve.till = berlin_wall(in.tsec, Z);
+	ve.t.oid = 9U, ve.t.umsk = 1U, ve.t.max_simul = 0U;
+	struct echs_task_s *t = make_task(&ve);
+	CHECK(t != NULL, "event accepted");
+	CHECK(ve.dur.d == want * 1000, "the limit of a DTSTART..DTEND event is the real elapsed time between the two, DST switch included");
 	WITNESS_POINT();
 #elif defined SIDE_X
 	static struct echs_task_s T;
